@@ -387,6 +387,7 @@ def main():
     ap.add_argument('pid')
     ap.add_argument('--tier', default=os.environ.get('VERIF_TIER', 'quick'), choices=['quick', 'thorough'])
     ap.add_argument('--replay')
+    ap.add_argument('--with', dest='subs', action='append', default=[], help='sub-check module(s) whose result and evidence are merged into this one')
     ap.add_argument('--no-coq', action='store_true', help='(development) skip the Coq build')
     args = ap.parse_args()
     pid = args.pid
@@ -602,6 +603,38 @@ def main():
             input_distribution=dist, errors=cb['errors'][:5]),
         assumptions=list(getattr(mod, 'ASSUMPTIONS', [])),
         wall_s=round(time.time() - t0, 2), violations=n_viol)
+    # ---- sub-checks (e.g. C01p, the rule parser, for C01): run, report, merge evidence
+    for sub in args.subs:
+        r = subprocess.run([sys.executable, os.path.abspath(__file__), sub, '--tier', args.tier],
+                           capture_output=True, text=True)
+        for ln in r.stdout.split('\n'):
+            if ln.startswith('VIOLATION') or ln.startswith('KNOWN-FINDING'):
+                lines.append(ln)
+        log(r.stdout.strip().split('\n')[-1] if r.stdout.strip() else 'sub-check %s produced no output' % sub)
+        if r.returncode != 0:
+            rc = 1
+        try:
+            with open(os.path.join(ROOT, 'evidence', '%s.json' % sub)) as f:
+                sev = json.load(f)
+            sc = sev['coverage']
+            ev['coverage'].setdefault('subchecks', {})[sub] = dict(
+                obligations=sc['obligations'], discharged=sc['discharged'], theorems=sc.get('theorems'),
+                evaluations=sc['evaluations'], distinct_nontrivial=sc['distinct_nontrivial'], rule=sc['rule'],
+                disagreements_checked=sc['disagreements_checked'], samples=sc['samples'][:2],
+                input_distribution=sc.get('input_distribution'), violations=sev.get('violations'))
+            ev['coverage']['obligations'] += sc['obligations']
+            ev['coverage']['discharged'] += sc['discharged']
+            ev['coverage']['evaluations'] += sc['evaluations']
+            ev['coverage']['distinct_nontrivial'] += sc['distinct_nontrivial']
+            ev['coverage']['traces_validated_against_impl'] += sc.get('traces_validated_against_impl', 0)
+            ev['coverage']['theorems'] = ev['coverage']['theorems'] + (sc.get('theorems') or [])
+            ev['coverage']['trusted_base'] += [t for t in sc['trusted_base'] if t.startswith('Print Assumptions') or t.startswith('modelled')]
+            ev['violations'] += sev.get('violations', 0)
+        except Exception as ex:
+            rc = 1
+            lines.append('VIOLATION property=%s replay=%s no-failing-input-found' % (
+                rid, write_replay(pid, dict(property=pid, case=None, broken=['sub-check %s left no valid evidence: %s' % (sub, ex)]))))
+    ev['wall_s'] = round(time.time() - t0, 2)
     os.makedirs(os.path.join(ROOT, 'evidence'), exist_ok=True)
     with open(os.path.join(ROOT, 'evidence', '%s.json' % pid), 'w') as f:
         json.dump(ev, f, indent=1, sort_keys=True)
